@@ -130,7 +130,7 @@ pub fn identity(ctx : &Ctx, out : &mut Out)
 /// C13 at the level of builds: "history is shared exactly between identical rules ... merely re-ordering the target
 /// or source lines does not [give a new identity]". One rule with several targets, written in two equivalent
 /// notations of the rules file (flat lines in some order / tab-indented directory bundle — where the order in which
-/// the parser yields the paths differs from the bytewise order: `d-`, `d.log` sort between `d` and `d/x`): build with
+/// the parser yields the paths differs from the bytewise order: `dir-`, `dir.log` sort between `dir` and `dir/x`): build with
 /// one notation, rewrite the file in the other, build again — nothing may run and nothing may change; clean, switch
 /// back, build — every target must come back with ITS content. All of it is a correspondence case as well.
 pub fn shared_history(ctx : &Ctx, out : &mut Out)
@@ -140,10 +140,10 @@ pub fn shared_history(ctx : &Ctx, out : &mut Out)
     for i in 0..n
     {
         let mut r = rng.fork(i as u64);
-        // targets: at least one inside directory d, at least one sorting between "d" and "d/"
-        let inside = ["d/x", "d/y.1", "d/a"];
-        let between = ["d-", "d.log", "d+"];
-        let other = ["c", "e", "d0", "da"];
+        // targets: at least one inside directory `dir` (which every fresh MemSys disk has), at least one sorting between "dir" and "dir/"
+        let inside = ["dir/x", "dir/y.1", "dir/a"];
+        let between = ["dir-", "dir.log", "dir+"];
+        let other = ["c", "e", "dir0", "dira"];
         let mut targets : Vec<String> = vec![r.pick(&inside).to_string(), r.pick(&between).to_string()];
         for _ in 0..r.range(0, 2) { let t = r.pick(&[inside[0], inside[1], inside[2], between[0], between[1], between[2], other[0], other[1], other[2], other[3]]).to_string(); if !targets.contains(&t) { targets.push(t); } }
         let mut sources = vec!["s".to_string()];
@@ -156,11 +156,11 @@ pub fn shared_history(ctx : &Ctx, out : &mut Out)
         let bundle = |srcs : &Vec<String>| -> String
         {
             // top-level names in any order, the directory d with its children indented below it
-            let mut top : Vec<String> = targets.iter().filter(|t| !t.starts_with("d/")).cloned().collect();
-            let mut kids : Vec<String> = targets.iter().filter_map(|t| t.strip_prefix("d/").map(|k| k.to_string())).collect();
+            let mut top : Vec<String> = targets.iter().filter(|t| !t.starts_with("dir/")).cloned().collect();
+            let mut kids : Vec<String> = targets.iter().filter_map(|t| t.strip_prefix("dir/").map(|k| k.to_string())).collect();
             top.sort(); kids.sort();
             let mut lines : Vec<String> = vec![];
-            lines.push("d".to_string());
+            lines.push("dir".to_string());
             for k in kids.iter() { lines.push(format!("\t{}", k)); }
             lines.extend(top);
             format!("{}\n:\n{}\n:\n{}\n:\n", lines.join("\n"), srcs.join("\n"), command.join("\n"))
@@ -173,12 +173,11 @@ pub fn shared_history(ctx : &Ctx, out : &mut Out)
         let second = (first + 1 + r.below(2)) % 3;
 
         let driver = Driver::new(ClockMode::Fine, 1_000_000);
-        driver.sys.with(|st| { st.disk.dirs.insert("d".to_string(), Default::default()); });
         let mut ops : Vec<Op> = vec![];
         let mut obs : Vec<String> = vec![];
         let user = |op : Op, ops : &mut Vec<Op>, obs : &mut Vec<String>| { driver.user(&op); driver.tick(); obs.push(world::show_obs(None, &driver.sys.disk())); ops.push(op); };
         let invoke = |op : Op, ops : &mut Vec<Op>, obs : &mut Vec<String>| { let inv = driver.invoke(&op, Policy::Serial); driver.tick(); obs.push(world::show_obs(Some(&inv), &driver.sys.disk())); ops.push(op); inv };
-        let replay = |ops : &Vec<Op>| { let mut j = Json::obj(); j.set("suite", Json::s("c13_shared")); j.set("ops", Json::Arr(ops.iter().map(|o| Json::s(&o.describe())).collect())); j.set("case", Json::s(&world::show_history_case(false, 1_000_000, ops))); j.set("note", Json::s("directory d exists beforehand")); j };
+        let replay = |ops : &Vec<Op>| { let mut j = Json::obj(); j.set("suite", Json::s("c13_shared")); j.set("ops", Json::Arr(ops.iter().map(|o| Json::s(&o.describe())).collect())); j.set("case", Json::s(&world::show_history_case(false, 1_000_000, ops)));  j };
         user(Op::Write(RULES_PATH.to_string(), texts[first].clone().into_bytes()), &mut ops, &mut obs);
         user(Op::Write("s".to_string(), b"one".to_vec()), &mut ops, &mut obs);
         if sources.len() > 1 { user(Op::Write("s2".to_string(), b"two".to_vec()), &mut ops, &mut obs); }
